@@ -370,7 +370,7 @@ def grease_classification(ctx, report, rule):
             for sub, want, width in ((model.try_cls('TlsInvalidTypeOneByte'), RFC8701_ONE, 1), (model.try_cls('TlsInvalidTypeTwoByte'), RFC8701_TWO, 2)):
                 if sub is None:
                     continue
-                wrong = tabulate_decision(sub, test, width, want, Evaluator, Unsupported)
+                wrong = tabulate_decision(sub, test, width, want, Evaluator, Unsupported, model)
                 if isinstance(wrong, str):
                     report.error('%s: the GREASE decision of %s is neither a table lookup nor tabulable arithmetic: %s' % (rule, sub.name, wrong))
                     return
@@ -382,25 +382,18 @@ def grease_classification(ctx, report, rule):
         report.add(rule, f.construct + '@grease-decision', 'no path classifies a code as GREASE')
 
 
-def tabulate_decision(cls, test, width, want, Evaluator, Unsupported):
+def tabulate_decision(cls, test, width, want, Evaluator, Unsupported, model=None):
     """evaluate ``test`` (an expression over self.code and classmethods of ``cls``) for every code of the width"""
-    import ast
+    from ..miniexec import class_call_hook
     wrong = []
-
-    def hook(n, ev):
-        f = n.func
-        if isinstance(f, ast.Attribute) and isinstance(f.value, ast.Name) and f.value.id in ('self', 'cls'):
-            m = cls.resolve(f.attr)
-            if m is None:
-                raise Unsupported('unknown method %s' % f.attr)
-            params = [a.arg for a in m.node.args.args][1:]
-            args = [ev.ev(a) for a in n.args]
-            sub = Evaluator(dict(zip(params, args)), hook, ev.name_hook)
-            return sub.function(m.node)
-        return NotImplemented
+    hook = class_call_hook(cls, model=model)
     try:
         for code in range(256 ** width):
-            ev = Evaluator({}, hook, lambda name, code=code: code if name == 'self.code' else (_ for _ in ()).throw(Unsupported('free name ' + name)))
+            def names(name, code=code):
+                if name == 'self.code':
+                    return code
+                raise Unsupported('free name ' + name)
+            ev = Evaluator({}, hook, hook.name_hook_for(cls.module, names))
             got = bool(ev.ev(test))
             if got != (code in want):
                 wrong.append((code, got))
